@@ -4,10 +4,14 @@ property it breaks, undo; write seeded/RESULTS.md.  Never leaves /repo modified.
 import os, sys, json, subprocess, glob
 V = os.path.dirname(os.path.dirname(os.path.abspath(__file__)))
 only = sys.argv[1:]
+import fcntl
+os.makedirs(V + "/work", exist_ok=True)
+_lk = open(V + "/work/repo.lock", "w")
+fcntl.flock(_lk, fcntl.LOCK_EX)  # one user of /repo's working tree at a time (see also thorough loops)
 rows = []
 for d in sorted(glob.glob(V + "/seeded/*/")):
     name = os.path.basename(d.rstrip("/"))
-    if only and name not in only:
+    if (only and name not in only) or not os.path.exists(d + "patch.diff"):
         continue
     pid = name.split("-")[0]
     st = subprocess.run(["git", "-C", "/repo", "status", "--porcelain"], capture_output=True, text=True).stdout
